@@ -8,8 +8,8 @@ RULE = ('histories of append/insert/extend/+=/item assignment/del (index and sli
         'slice, and refused values (non-dict rows, out-of-range indices) applied in lock-step to a Grid and a Python list '
         'holding the same row objects; per step the outcome (result identity or exception type) must match, and after the '
         'history: len, iteration (row identity), g[i] for every i in -n-1..n, seven slices (Grid type, rows, carried '
-        'version/metadata/columns), membership, count, index. Exhaustive: all histories up to the depth bound over a '
-        '26/27-op alphabet from three initial grids; Hypothesis: histories of up to 50 ops with observation after every step. '
+        'version/metadata/columns), membership, count, index. Exhaustive: all histories up to depth 3 (quick) / 4 (thorough) over a '
+        '~40-op alphabet from four initial grids; Hypothesis: histories of up to 50 ops with observation after every step. '
         'Non-trivial = history contains a deletion, a replacement, a refused op or a mutation after a slice; distinct by op list.')
 ASSUMPTIONS = ['rows hold scalar values only (version gating of row content is C10)',
                'for extend/+= the rows before a refused element stay appended, as for a list']
@@ -23,12 +23,12 @@ def plan(tier, seed, excl, mode=MODE):
     q = tier == 'quick'
     t = []
     for ii in range(len(INITIALS)):
-        for d in ((1, 2, 3, 4) if q else (1, 2, 3, 4, 5)):
-            if q and d == 4 and (ii != 1 and mode == 'list' or ii == 3):
-                continue
-            of = 1 if d < 3 else (2 if d == 3 else (8 if d == 4 else 27))
+        for d in ((1, 2, 3) if q else (1, 2, 3, 4)):
+            of = 1 if d < 3 else (4 if d == 3 else 40)
             for sh in range(of):
                 t.append(('enum', {'init': ii, 'depth': d, 'shard': sh, 'of': of}))
+    if q and mode == 'id':
+        t += [('enum', {'init': 1, 'depth': 4, 'shard': sh, 'of': 16}) for sh in range(16)]
     t += [('machine', {'shard': i, 'n': 600 if q else 12000}) for i in range(8)]
     return t
 
